@@ -161,6 +161,7 @@ def c01_rules():
         lambda prog, tier: idxclass.run(prog, scope_units=("qsopt_ex/exact.c", "lib_mpq.c", "qsopt_mpq.c")),
         lambda prog, tier: certdep.run(prog, which=("QSexact_optimal_test",)),
         lambda prog, tier: vtypezero.run(prog),
+        lambda prog, tier: escape.run_extcopy(prog),
     ]
 
 
@@ -192,6 +193,7 @@ def c05_rules():
         lambda prog, tier: djsym.run_keepcache(prog),
         lambda prog, tier: inval.run_skipgate(prog),
         lambda prog, tier: vtypezero.run(prog),
+        lambda prog, tier: escape.run_extcopy(prog),
     ]
 
 
@@ -495,7 +497,8 @@ PROPS = {
         "rules": [lambda prog, tier: zerotol.run(prog, shared_eff(prog), "factor"),
                   lambda prog, tier: escape.run(prog),
                   lambda prog, tier: idxclass.run(prog, scope_units=("lib_mpq.c", "qsopt_mpq.c"), rule="R-IDXCLASS"),
-                  lambda prog, tier: scratch.run(prog), lambda prog, tier: scratch.run_delay(prog)],
+                  lambda prog, tier: scratch.run(prog), lambda prog, tier: scratch.run_delay(prog),
+                  lambda prog, tier: escape.run_extcopy(prog)],
         "technique": "value-class (zero / non-zero / unknown) fixpoint over GMP-number locations with interprocedural parameter binding and "
                      "dead-write elimination on the CFG; per-iteration must-pass analysis of the scratch-mark clearing loops",
         "explanation": "Decides one structural clause of C13: the two tolerances of the LU work record (fzero_tol, szero_tol), and every "
@@ -664,7 +667,8 @@ _ADD = {
     "C13": {"technique": "; control-dependence analysis of scratch-mark resets and dependency-counter updates on conditions over exact numbers",
             "explanation": " (R-SCRATCH) in the sparse kernels no clearing of a scratch mark (lpinfo::iwork) and no update of a dependency counter "
                            "(ur/uc/lr/lc_info::delay) is control-dependent on the value of an exact number: an exact cancellation must not change the "
-                           "structure the next solve relies on.",
+                           "structure the next solve relies on. (R-EXTORDER(copy)) elements of a work vector in internal column order (tableau row, "
+                           "solution vectors) reach the caller's arrays only through structmap[] / rowmap[].",
             "level_text": " R-SCRATCH adds the structural clause that marks and topological counters are value-independent (two seeded LU / tableau "
                           "defects are reported by it)."},
     "C14": {"technique": "; exit-condition analysis of the record-emitting loops of the basis writer",
